@@ -107,27 +107,31 @@ Fixpoint drive (s : state) (l : list ostep) : state * bool :=
     (s2, ok && ok')
   end.
 
-(* observed events: kind 0 inv, 1 fs, 2 fe, 3 ret (v1 val, v2 err, v3 fresh: 1/0/-1 unknown),
-   4 blk (thread seen blocked at a quiescent point) *)
+(* observed events: kind 0 inv, 1 fs, 2 fe, 3 ret (v1 val, v2 err (epanic = the call panicked),
+   v3 fresh: 1/0/-1 unknown/-2 not a call of the barrier), 4 blk (thread seen blocked at a quiescent
+   point, or still blocked when the run is over), 5 del (key in v1), 6 fault (cache store down: v1 = 1 / up again: 0) *)
 Record ev := mkEv { et : Z; ea : nat; ek : Z; eop : nat; ev1 : Z; ev2 : Z; ev3 : Z }.
 
-Record case := mkCase
+Record ccase := mkCase
   { cscripts : list (list op);
     ccache : bool;    (* the calls go through a cache in front of the barrier (collection.Cache.Take,
-                         stores/cache node Take): a result may also be the cached value of the latest
-                         completed load of the key; only prop_ok is evaluated *)
+                         stores/cache node Take / TakeWithExpire): a result may also be the cached value of
+                         the latest completed load of the key; only prop_ok is evaluated *)
     cforced : bool;
     csteps : list ostep;
     clog : list ev }.
 
-Definition model_final (c : case) : state * bool := drive (init (cscripts c)) (csteps c).
+(* the cache node's not-found error: the only error a cache may legitimately keep (placeholder) *)
+Definition enotfound : Z := 9%Z.
+
+Definition model_final (c : ccase) : state * bool := drive (init (cscripts c)) (csteps c).
 
 (* results per thread: (call index, val, err, fresh) *)
 Definition model_results (s : state) : list (list (Z * Z * Z * Z)) :=
   map (fun th => map (fun r => (Z.of_nat (rop r), rval r, rerr r, if rfresh r then 1%Z else 0%Z)) (tres th))
       (threads s).
 
-Definition obs_results (c : case) : list (list (Z * Z * Z * Z)) :=
+Definition obs_results (c : ccase) : list (list (Z * Z * Z * Z)) :=
   map (fun t => map (fun e => (Z.of_nat (eop e), ev1 e, ev2 e, ev3 e))
                     (filter (fun e => (ek e =? 3)%Z && Nat.eqb (ea e) t) (clog c)))
       (seq 0 (length (cscripts c))).
@@ -137,19 +141,17 @@ Definition res_eqb (m o : Z * Z * Z * Z) : bool :=
   let '(oi, ov, oe, of_) := o in
   (mi =? oi)%Z && (mv =? ov)%Z && (me =? oe)%Z && ((of_ =? -1)%Z || (mf =? of_)%Z).
 
-Definition agrees (c : case) : bool :=
+Definition agrees_conc (c : ccase) : bool :=
   if cforced c then
     let '(s, ok) := model_final c in
     ok && list_eqb (list_eqb res_eqb) (model_results s) (obs_results c)
   else true.
 
-Definition model_obs (c : case) := (statuses (fst (model_final c)), model_results (fst (model_final c))).
-
 (* ------------------------------------------------------------------ *)
 (* prop_ok: the property of properties.jsonl, evaluated directly on the event log of the
    implementation (intervals on the logical clock), independent of the LTS. *)
 
-Definition op_at (c : case) (a i : nat) : option op :=
+Definition op_at (c : ccase) (a i : nat) : option op :=
   match nth_error (cscripts c) a with
   | Some sc => nth_error sc i
   | None => None
@@ -167,7 +169,7 @@ Definition count_ev (l : list ev) (k : Z) (a i : nat) : nat :=
 Definition pair_nat_eqb (x y : nat * nat) : bool := Nat.eqb (fst x) (fst y) && Nat.eqb (snd x) (snd y).
 
 (* (A) + (C): scan the log keeping the executions in progress *)
-Fixpoint scan (c : case) (l : list ev) (open : list (nat * nat)) : bool :=
+Fixpoint scan (c : ccase) (l : list ev) (open : list (nat * nat)) : bool :=
   match l with
   | [] => true
   | e :: l' =>
@@ -189,12 +191,12 @@ Fixpoint scan (c : case) (l : list ev) (open : list (nat * nat)) : bool :=
   end.
 
 (* the executions: fs events *)
-Definition execs (c : case) : list ev := filter (fun e => (ek e =? 1)%Z) (clog c).
+Definition execs (c : ccase) : list ev := filter (fun e => (ek e =? 1)%Z) (clog c).
 
 (* the call of [e] (a ret event) may legitimately carry the result of execution [x]
    (an fs event): that execution's value was computed before, and it is the caller's own
    execution (then reported fresh) or one whose leading call overlaps the caller's call *)
-Definition may_share (c : case) (e x : ev) : bool :=
+Definition may_share (c : ccase) (e x : ev) : bool :=
   let l := clog c in
   match find_ev l 2 (ea x) (eop x), find_ev l 0 (ea x) (eop x), find_ev l 0 (ea e) (eop e) with
   | Some fe, Some linv, Some inv =>
@@ -209,22 +211,37 @@ Definition may_share (c : case) (e x : ev) : bool :=
   | _, _, _ => false
   end.
 
+(* the cache store was made to fail at some point of the history *)
+Definition has_fault (c : ccase) : bool := existsb (fun e => (ek e =? 6)%Z) (clog c).
+Definition fault_before (c : ccase) (e : ev) : bool :=
+  existsb (fun f => (ek f =? 6)%Z && (ev1 f =? 1)%Z && (et f <? et e)%Z) (clog c).
+
 (* cache in front of the barrier: the value of a load x of the same key that completed before
-   the call was invoked, provided no later load of the key completed and the key was not
+   the call was invoked, provided no later load of the key completed (a load that completes while
+   the store is down is not written: not required in histories with faults) and the key was not
    deleted (event kind 5, key in v1) in between *)
-Definition cache_hit (c : case) (e x : ev) : bool :=
+Definition cache_hit (c : ccase) (e x : ev) : bool :=
   let l := clog c in
   match find_ev l 2 (ea x) (eop x), find_ev l 0 (ea e) (eop e), op_at c (ea x) (eop x) with
   | Some fe, Some inv, Some ox =>
     (et fe <? et inv)%Z &&
-    negb (existsb (fun y => match op_at c (ea y) (eop y) with
+    (has_fault c ||
+     negb (existsb (fun y => match op_at c (ea y) (eop y) with
                             | Some oy => same_key ox oy && (ek y =? 2)%Z && (et fe <? et y)%Z && (et y <? et inv)%Z
-                            | None => false end) l) &&
+                            | None => false end) l)) &&
     negb (existsb (fun d => (ek d =? 5)%Z && (ev1 d =? okey ox)%Z && (et fe <? et d)%Z && (et d <? et inv)%Z) l)
   | _, _, _ => false
   end.
 
-Definition ret_ok (c : case) (e : ev) : bool :=
+(* A user function that panics assigns nothing: SingleFlight waiters of that execution return
+   (nil, nil).  The property text does not quantify over panicking functions; this clause states
+   what the code does and is the only place where a result that no execution produced is accepted
+   (see Pinned.panic_hands_nil_to_waiters_refuted and notes/C07.md). *)
+Definition panic_share (c : ccase) (e x : ev) (o' : op) : bool :=
+  panics o' && (ev1 e =? vnil)%Z && (ev2 e =? 0)%Z &&
+  negb (pair_nat_eqb (ea x, eop x) (ea e, eop e)) && may_share c e x.
+
+Definition ret_ok (c : ccase) (e : ev) : bool :=
   if (ev3 e =? -2)%Z then true else
   match op_at c (ea e) (eop e) with
   | None => false
@@ -232,23 +249,31 @@ Definition ret_ok (c : case) (e : ev) : bool :=
     match ogrp o with
     | GSF =>
       if ccache c && negb (ev2 e =? 0)%Z then
-        (* a failed load is not cached and its value is dropped: only the error is shared *)
+        (* a failed load is not cached and its value is dropped: only the error is shared - except the
+           not-found outcome, which the cache node keeps as a placeholder; while the store is down every
+           call fails fast with the store's error *)
         existsb (fun x => match op_at c (ea x) (eop x) with
-                          | Some o' => same_key o o' && (oerr o' =? ev2 e)%Z && may_share c e x
+                          | Some o' => same_key o o' && (snd (fn_ret o') =? ev2 e)%Z &&
+                                       (may_share c e x || ((ev2 e =? enotfound)%Z && cache_hit c e x))
                           | None => false end) (execs c)
+        || ((ev2 e =? -1)%Z && fault_before c e)
       else if ccache c then
         existsb (fun x => match op_at c (ea x) (eop x) with
-                          | Some o' => same_key o o' && (oval o' =? ev1 e)%Z && (oerr o' =? 0)%Z &&
-                                       (may_share c e x || cache_hit c e x)
+                          | Some o' => same_key o o' &&
+                                       (((oval o' =? ev1 e)%Z && (oerr o' =? 0)%Z &&
+                                         (may_share c e x || cache_hit c e x))
+                                        || panic_share c e x o')
                           | None => false end) (execs c)
       else
       existsb (fun x => match op_at c (ea x) (eop x) with
-                        | Some o' => same_key o o' && (oval o' =? ev1 e)%Z && (oerr o' =? ev2 e)%Z && may_share c e x
+                        | Some o' => same_key o o' &&
+                                     (((fst (fn_ret o') =? ev1 e)%Z && (snd (fn_ret o') =? ev2 e)%Z && may_share c e x)
+                                      || panic_share c e x o')
                         | None => false end) (execs c)
     | GLC =>
       (* own function, exactly once, own result *)
       Nat.eqb (count_ev (clog c) 1 (ea e) (eop e)) 1 && Nat.eqb (count_ev (clog c) 2 (ea e) (eop e)) 1 &&
-      (oval o =? ev1 e)%Z && (oerr o =? ev2 e)%Z &&
+      (fst (fn_ret o) =? ev1 e)%Z && (snd (fn_ret o) =? ev2 e)%Z &&
       match find_ev (clog c) 2 (ea e) (eop e) with Some fe => (et fe <? et e)%Z | None => false end
     | GRM =>
       if (ev2 e =? 0)%Z then
@@ -258,6 +283,7 @@ Definition ret_ok (c : case) (e : ev) : bool :=
                           | Some o', Some fe => same_key o o' && (oval o' =? ev1 e)%Z && (oerr o' =? 0)%Z && (et fe <? et e)%Z
                           | _, _ => false end) (execs c)
       else
+        (* a failed (or panicked) creation is shared with the overlapping callers only *)
         existsb (fun x => match op_at c (ea x) (eop x) with
                           | Some o' => same_key o o' && (oerr o' =? ev2 e)%Z && may_share c e x
                           | None => false end) (execs c)
@@ -265,7 +291,7 @@ Definition ret_ok (c : case) (e : ev) : bool :=
   end.
 
 (* at most one reported-fresh return per execution, identified by its (unique) value *)
-Definition fresh_once (c : case) (x : ev) : bool :=
+Definition fresh_once (c : ccase) (x : ev) : bool :=
   match op_at c (ea x) (eop x) with
   | Some o =>
     match ogrp o with
@@ -278,7 +304,7 @@ Definition fresh_once (c : case) (x : ev) : bool :=
   end.
 
 (* ResourceManager: at most one successful create per key *)
-Definition created_once (c : case) (x : ev) : bool :=
+Definition created_once (c : ccase) (x : ev) : bool :=
   match op_at c (ea x) (eop x) with
   | Some o =>
     match ogrp o with
@@ -293,9 +319,95 @@ Definition created_once (c : case) (x : ev) : bool :=
   end.
 
 (* every caller ran its own function at most once *)
-Definition own_once (c : case) (x : ev) : bool := Nat.leb (count_ev (clog c) 1 (ea x) (eop x)) 1.
+Definition own_once (c : ccase) (x : ev) : bool := Nat.leb (count_ev (clog c) 1 (ea x) (eop x)) 1.
 
-Definition prop_ok (c : case) : bool :=
+Definition prop_ok_conc (c : ccase) : bool :=
   scan c (clog c) [] &&
   forallb (ret_ok c) (filter (fun e => (ek e =? 3)%Z) (clog c)) &&
   forallb (fun x => fresh_once c x && created_once c x && own_once c x) (execs c).
+
+(* ------------------------------------------------------------------ *)
+(* ResourceManager as a sequential object, with Inject and Close (not part of the LTS: Inject is
+   a test hook that overwrites the map, and the manager must not be used after Close).
+   op: 0 GetResource (create returns (rv, re)), 1 Inject, 2 Close.  Observation:
+   get -> (instance, err, create called), inject -> (0,0,0),
+   close -> (#resources closed, #Close errors joined, sum of the closed ids); a resource whose id
+   is divisible by 5 fails to close. *)
+Record rmop := mkRmOp { rk : Z; rkey : Z; rv : Z; re : Z }.
+
+Fixpoint rm_lookup (m : list (Z * Z)) (k : Z) : option Z :=
+  match m with
+  | [] => None
+  | (k', x) :: m' => if (k' =? k)%Z then Some x else rm_lookup m' k
+  end.
+
+Definition rm_set (m : list (Z * Z)) (k x : Z) : list (Z * Z) :=
+  (k, x) :: filter (fun p => negb (fst p =? k)%Z) m.
+
+Definition zsum (l : list Z) : Z := fold_right Z.add 0%Z l.
+
+Definition rm_seq_step (m : list (Z * Z)) (o : rmop) : list (Z * Z) * (Z * Z * Z) :=
+  if (rk o =? 0)%Z then
+    match rm_lookup m (rkey o) with
+    | Some x => (m, (x, 0, 0)%Z)                         (* handed out, create not called *)
+    | None => if (re o =? 0)%Z then (rm_set m (rkey o) (rv o), (rv o, 0, 1)%Z)
+              else (m, (-1, re o, 1)%Z)                   (* a failed creation leaves nothing behind *)
+    end
+  else if (rk o =? 1)%Z then (rm_set m (rkey o) (rv o), (0, 0, 0)%Z)
+  else ([], (Z.of_nat (length m),
+             Z.of_nat (length (filter (fun p => (snd p mod 5 =? 0)%Z) m)),
+             zsum (map snd m))).
+
+Fixpoint rm_seq (m : list (Z * Z)) (ops : list rmop) : list (Z * Z * Z) :=
+  match ops with
+  | [] => []
+  | o :: ops' => let '(m', r) := rm_seq_step m o in r :: rm_seq m' ops'
+  end.
+
+Definition obs3_eqb (a b : Z * Z * Z) : bool :=
+  let '(a1, a2, a3) := a in let '(b1, b2, b3) := b in (a1 =? b1)%Z && (a2 =? b2)%Z && (a3 =? b3)%Z.
+
+(* the property on the observations alone: per key, between two Close, create is called only
+   while the key has no instance, succeeds at most once, and every successful GetResource hands out
+   the one current instance (the created or the injected one) *)
+Fixpoint rm_prop (cur : list (Z * Z)) (ops : list rmop) (obs : list (Z * Z * Z)) : bool :=
+  match ops, obs with
+  | [], [] => true
+  | o :: ops', (v, e, cr) :: obs' =>
+    if (rk o =? 0)%Z then
+      match rm_lookup cur (rkey o) with
+      | Some x => (v =? x)%Z && (e =? 0)%Z && (cr =? 0)%Z && rm_prop cur ops' obs'
+      | None =>
+        (cr =? 1)%Z &&
+        if (e =? 0)%Z then (re o =? 0)%Z && (v =? rv o)%Z && rm_prop (rm_set cur (rkey o) v) ops' obs'
+        else (e =? re o)%Z && (v =? -1)%Z && rm_prop cur ops' obs'
+      end
+    else if (rk o =? 1)%Z then rm_prop (rm_set cur (rkey o) (rv o)) ops' obs'
+    else (v =? Z.of_nat (length cur))%Z && (cr =? zsum (map snd cur))%Z &&
+         (e =? Z.of_nat (length (filter (fun p => (snd p mod 5 =? 0)%Z) cur)))%Z &&
+         rm_prop [] ops' obs'
+  | _, _ => false
+  end.
+
+(* ------------------------------------------------------------------ *)
+Inductive case :=
+| Conc (c : ccase)
+| RmSeq (ops : list rmop) (obs : list (Z * Z * Z)).
+
+Definition agrees (c : case) : bool :=
+  match c with
+  | Conc c => agrees_conc c
+  | RmSeq ops obs => list_eqb obs3_eqb (rm_seq [] ops) obs
+  end.
+
+Definition prop_ok (c : case) : bool :=
+  match c with
+  | Conc c => prop_ok_conc c
+  | RmSeq ops obs => rm_prop [] ops obs
+  end.
+
+Definition model_obs (c : case) :=
+  match c with
+  | Conc c => (statuses (fst (model_final c)), model_results (fst (model_final c)), [])
+  | RmSeq ops _ => ([], [], rm_seq [] ops)
+  end.
